@@ -75,7 +75,7 @@ func gen(t *rapid.T) Case {
 		return Case{Mod: m, R: r}
 	}
 	r := progen.GenRendering(t)
-	o := progen.Opts{Avoid: avoidSet()}
+	o := progen.Opts{Avoid: avoidSet(), CrossEmbed: true}
 	if r.InPackage() && rapid.IntRange(0, 2).Draw(t, "unexported") == 0 {
 		o.AllowUnexported = true
 	}
@@ -84,10 +84,11 @@ func gen(t *rapid.T) Case {
 	}
 	o.OnAvoid = vh.Excluded
 	mod := progen.Gen(t, o)
-	if rapid.IntRange(0, 3).Draw(t, "template-locals") == 0 {
+	if rapid.IntRange(0, 2).Draw(t, "template-locals") == 0 {
 		progen.HostileLocals(t, &mod, r.Template)
 	}
 	r.GenIfaceData(t, &mod)
+	r.GenIfaceConfigs(t, &mod)
 	return Case{Mod: mod, R: r}
 }
 
